@@ -37,7 +37,8 @@ ASSUMPTIONS = [
     "property (str() sorts them); order of values of one key and of "
     "sections is",
 ]
-HOOK_FLOORS = {"quick": {"schema_based_load_with_directives": 2},
+HOOK_FLOORS = {"quick": {"schema_based_load_with_directives": 2,
+                         "nested_sections_printed_on_their_own": 20000},
                "thorough": {"schema_based_load_with_directives": 2}}
 FLOORS = {"quick": {"accepted_nontrivial": 500000},
           "thorough": {"accepted_nontrivial": 8000000}}
@@ -159,7 +160,34 @@ def roundtrip(text):
     s2 = str(r2[2])
     if s2 != s1:
         return ("not-a-fixpoint", s1, s2), r1
+    # a section of the result is printed by str() as well: its text, read
+    # again, holds exactly that section
+    todo = list(r1[2].sections)
+    n = 0
+    while todo and n < 6:
+        sec = todo.pop(0)
+        todo.extend(sec.sections)
+        n += 1
+        NESTED[0] += 1
+        want = {"type": t1["type"], "name": t1["name"], "keys": {},
+                "imports": [],
+                "sections": [c03.walk_schemaless(sec, False)]}
+        try:
+            s3 = str(sec)
+        except Exception as e:  # noqa
+            return ("str-raised", None, "%s: %s" % (type(e).__name__,
+                                                    e)), r1
+        r3 = load(s3)
+        if r3[0] != "ok":
+            return ("reload-refused", {"tree": want, "printed": s3},
+                    list(r3[:3])), r1
+        if r3[1] != want:
+            return ("structure-changed", {"tree": want, "printed": s3},
+                    {"tree": r3[1]}), r1
     return None, r1
+
+
+NESTED = [0]
 
 
 def classify(text, tree):
@@ -333,6 +361,7 @@ def _run_shard(ctx):
     for i in range(RANDOM[ctx.tier] // ctx.nshards):
         check_text(ctx, c03.random_text(rng), "random")
         check_text(ctx, targeted_text(rng), "targeted")
+    ctx.res.hook("nested_sections_printed_on_their_own", NESTED[0])
     ctx.res.info["bounds"] = {"single_line_max_len": bound,
                               "pool_size": len(pool),
                               "pool_max_lines": maxlines,
